@@ -23,7 +23,8 @@ CLAIMED = {
                 "proved equal to the frozen list and every table word is proved not to be split. NOT proved: the composition lemma that the words of spell(n) "
                 "executed in sequence yield decimal(n) for all n < 10^12 (no spelling driver was built), and the behaviour of glued / hyphenated compounds beyond "
                 "'the group result is placed as a whole under the Overlap guard' (proved for en, fr, de, it, nl; the daachorse automaton is assumed).",
-        "note": TRUST + "Known finding (German 'eine Million') listed in known_findings.txt. WordSplitter (daachorse) has an assumed contract: is_splittable == "
+        "note": TRUST + "Known finding (German 'eine Million') listed in known_findings.txt. Bounded evidence for the composition (thorough tier only, never counted as "
+                "proof): about 2 800 spelled integers per language and seed from independent spellers (tools/spell.py) agree with text2digits and the rewriter.  WordSplitter (daachorse) has an assumed contract: is_splittable == "
                 "'some pattern occurs and the word is not itself a pattern'; Italian/German/Dutch values are assumed to come from Default::default (private field).",
         "design_ref": "DESIGN.md §12.3 C01",
     },
